@@ -12,7 +12,7 @@ TMPR=$(mktemp -d); cp "$ROOT/known_findings.jsonl" "$TMPR/"
 for c in $CHECKS; do
   # evidence / replays of these runs go to a scratch root, not into /verif
   ( cd "$ROOT/sim" && cargo build --release --offline -q 2>/dev/null )
-  VERIF_ROOT="$TMPR" "$ROOT/sim/target/release/caosim" check $c --tier quick >"$TMPR/$c.log" 2>&1; rc=$?
+  CAOSIM_NO_SHRINK=1 VERIF_ROOT="$TMPR" "$ROOT/sim/target/release/caosim" check $c --tier quick >"$TMPR/$c.log" 2>&1; rc=$?
   nv=$(grep -c '^VIOLATION' "$TMPR/$c.log")
   first=$(grep -m1 '^violation:' "$TMPR/$c.log" | cut -c1-260)
   echo "$c exit=$rc violations=$nv $first"
